@@ -20,7 +20,7 @@ RULE = (
     "structural edits, saves and restarts are interleaved. distinct = event-log digest; non-trivial = >= 3 twin ops, >= 2 bad-position probes and >= 2 iterations"
 )
 ASSUMPTIONS = [
-    "bound: growth probes up to row 2000 / column 999; MAX_ROW_COUNT-1 growth is not attempted (1e6 cell objects)",
+    "bound: growth probes up to row 2000 / column 999 in the quick tier; the last legal row (A1000000) and column (ALL1) are written in A1 form once per THOROUGH batch (run index 7: 1e6 cell objects, minutes), never in quick",
     "bound: set_cell_formatting is only sent to positions holding a number (formatting an empty grown cell is a TypeError by design, not an addressing question)",
     "bound: inverted ranges (min > max) are not generated for iter_rows/iter_cols: unspecified",
 ]
@@ -36,7 +36,28 @@ def bound_spec(rng):
     return rng.choice([None, None, ["abs", 0], ["abs", 1], ["last", 0], ["last", -1], ["last", 1], ["abs", -1], ["last", 2]])
 
 
+def gen_max_position(seed: int):
+    """The last legal row and column, addressed in A1 form ('A1000000', 'ALL1') and the first ones beyond (once per thorough
+    batch: 10^6 cell objects, ~3 GB, minutes)."""
+    cfg = {"property": PROPERTY, "aspects": ["grid", "names"], "profile": "addressing", "_mix": {"f": 1}, "_long": False,
+           "stratum": "max_position", "wall_cap": 1500}
+    g = Gen(seed, "thorough", cfg)
+    g.emit({"op": "new_doc", "rows": 1, "cols": 1, "hr": 0, "hc": 0})
+    g.emit({"op": "write", "d": 0, "s": 0, "t": 0, "r": 0, "c": 999, "v": V.enc("last column"), "nota": "a1"})
+    g.emit({"op": "bad_pos", "d": 0, "s": 0, "t": 0, "method": "write", "r": {"rel": "in", "k": 0}, "c": {"rel": "max", "k": 0}, "nota": "a1"})
+    g.emit({"op": "read_pos", "d": 0, "s": 0, "t": 0, "r": 0, "c": 999})
+    g.emit({"op": "new_doc", "d": 0, "rows": 1, "cols": 1, "hr": 0, "hc": 0})
+    g.emit({"op": "drop", "d": 0})
+    g.emit({"op": "write", "d": 0, "s": 0, "t": 0, "r": 999_999, "c": 0, "v": V.enc(12.5), "nota": "abs"})
+    g.emit({"op": "bad_pos", "d": 0, "s": 0, "t": 0, "method": "write", "r": {"rel": "max", "k": 0}, "c": {"rel": "in", "k": 0}, "nota": "a1"})
+    g.emit({"op": "bad_pos", "d": 0, "s": 0, "t": 0, "method": "cell", "r": {"rel": "max", "k": 0}, "c": {"rel": "in", "k": 0}, "nota": "a1"})
+    g.emit({"op": "read_pos", "d": 0, "s": 0, "t": 0, "r": 999_999, "c": 0})
+    return cfg, g.ops
+
+
 def gen(seed: int, tier: str, idx=None):
+    if tier == "thorough" and idx == 7:
+        return gen_max_position(seed)
     rng0 = substream(seed, "swarm")
     cfg = {"property": PROPERTY, "aspects": ["grid", "names"], "profile": "addressing", "_mix": {"s": 2, "i": 3, "f": 2, "b": 1, "dt": 1, "td": 1}, "_long": False}
     g = Gen(seed, tier, cfg)
